@@ -21,6 +21,11 @@ def variant : Variant :=
     fixDiv := (variantBits / 4) % 2 = 1, perSeqBatch := (variantBits / 8) % 2 = 1,
     atomicRemove := (variantBits / 16) % 2 = 1 }
 
+/-- **The tree carries every repair** (F14, F15b, F23, SWA capacity, F28): the variant probed from the real
+    code on this run is the all-fixed one.  A tree that lost a repair no longer builds this module (and the
+    check reports `variant-regression` with the finding's witness history as input). -/
+theorem variant_is_all_fixed : variantBits = 31 := by decide
+
 def win (w : Nat) : Option Int := if w = 0 then none else some (w : Int)
 
 /-- a cache with the given cells (no layers yet), `cellRanges` as the driver sets them up: exact
